@@ -117,6 +117,40 @@ def read_state(kind, path):
     return members, props, problems
 
 
+def http_readback(colldir):
+    """Problems a DAV client sees on the recovered collection (served by a fresh application object)."""
+    from ..core import dav, http
+
+    out = []
+    w = http.WsgiWorld(os.path.dirname(colldir))
+    try:
+        base = "/" + os.path.basename(colldir) + "/"
+        r = w.request("PROPFIND", base, dict(dav.XML_CT, Depth="1"), dav.propfind_body([dav.P_GETETAG, "{DAV:}getcontentlength"]))
+        if r.status != 207:
+            return ["http-listing-fails:%s" % r.status]
+        ms = dav.parse_multistatus(r.body)
+        for x in ms.responses:
+            if not x.href or x.href.rstrip("/") == base.rstrip("/"):
+                continue
+            g = w.request("GET", x.href)
+            if g.status != 200:
+                out.append("http-listed-member-not-served:%s" % g.status)
+                continue
+            cl = g.headers.get("content-length")
+            if cl is not None and int(cl) != len(g.body):
+                out.append("http-content-length-differs-from-body:announced %s, sent %d" % (cl, len(g.body)))
+            pl = x.prop_text("{DAV:}getcontentlength")
+            if pl is not None and int(pl) != len(g.body):
+                out.append("http-getcontentlength-differs-from-body:reported %s, body %d" % (pl, len(g.body)))
+            if x.prop_text(dav.P_GETETAG) != g.headers.get("etag"):
+                out.append("http-etag-views-differ")
+    except Exception as e:  # noqa: BLE001
+        out.append("http-readback-raises:%s" % type(e).__name__)
+    finally:
+        w.close()
+    return out
+
+
 def git_health(kind, path, had_commits):
     if kind == "vdir":
         return []
@@ -223,6 +257,11 @@ def _scenario(args):
                     elif g != pre_props.get(p):
                         vio("other-property-changed:%s:%s" % (p, cls.split(":")[0]), "%s changed from %r to %r at %s" % (p, pre_props.get(p), g, where), {"crash_point": where})
                 stats["distinct"].add((tuple(sorted((n, hash(v)) for n, v in members.items())), tuple(sorted((k_, str(v)) for k_, v in props.items()))))
+            if op[0] == "http" and members is not None:
+                # the recovered directory as a client sees it: a fresh application object on a copy's parent directory;
+                # every member's GET must announce the length of what it sends, and PROPFIND must report the same length
+                for hp in http_readback(cd):
+                    vio(hp.split(":")[0] + ":" + cls.split(":")[0], "%s at crash point %s" % (hp, where), {"crash_point": where, "byte": part})
             for gp in git_health(kind, cd, had_commits):
                 vio(gp + ":" + cls.split(":")[0], "%s at crash point %s" % (gp, where), {"crash_point": where, "byte": part})
             if is_last:
